@@ -2,6 +2,7 @@ import RuxModel.Drv.Common
 import RuxModel.Drv.Lru
 import RuxModel.Drv.Route
 import RuxModel.Drv.Gates
+import RuxModel.Drv.Chain
 /-
   Line-protocol driver: `driver <engine>` reads op lines on stdin and answers one line per op.
   Lines starting with `#` are echoed (they separate cases and carry comments).
@@ -25,7 +26,8 @@ partial def loop (e : Engine) (hin hout : IO.FS.Stream) (s : e.σ) : IO Unit := 
 def engines : List (String × Engine) := [
   ("lru", lruEngine),
   ("route", routeEngine),
-  ("gates", gatesEngine)
+  ("gates", gatesEngine),
+  ("chain", chainEngine)
 ]
 
 def main (args : List String) : IO UInt32 := do
